@@ -1,7 +1,7 @@
 (* C19 -- the statements of Props/Properties_C19.v with their (short) derivations from the lemmas of PRProofs.v, Mix.v,
    Checker.v; Props/ only contains `exact`. *)
 From Coq Require Import Reals QArith Qreals List String Lra.
-From IPV Require Import Base.RExpr Base.IntervalEval C19.BExpr C19.Spec C19.PRProofs C19.Cardano C19.Mix C19.Checker Gen.Gen_C19_gases.
+From IPV Require Import Base.RExpr Base.IntervalEval C19.BExpr C19.Spec C19.PRProofs C19.Cardano C19.Mix C19.Checker C19.Examples Gen.Gen_C19_gases.
 Import ListNotations.
 Local Open Scope R_scope.
 
